@@ -31,7 +31,9 @@ def table_check(ctx, rule, I):
     for a, row, outs, raises in decision_table(I):
         n += 1
         cls = "&".join(k for k, v in a.items() if v) or "none"
-        ok = outs == [SPEC[row]]
+        from ..normflow import ALSO
+        extra = [SPEC[r] for r in ALSO.get(row, [])]
+        ok = SPEC[row] in outs and all(o == SPEC[row] or o in extra for o in outs)
         ctx.check(ok, rule, "OperandsParser._process_operand_elem", f"class[{cls}] -> {outs or raises} (expected {row})"[:260],
                   f"operand class [{cls}] is rewritten as row {row}: {SPEC[row]}")
     return n
